@@ -1,5 +1,6 @@
 """One module per property; each exposes META (dict) and cases(tier) -> [Case]."""
 MODULES = {
     "C01": "harness.c01_decode",
+    "C04": "harness.c04_address",
     "C05": "harness.c05_frame",
 }
